@@ -584,6 +584,13 @@ Inductive texpr : Set :=
 		}
 		gates[g.Pkg] = append(gates[g.Pkg], "("+coqStr(g.Op)+", "+coqZ(g.Value)+")")
 	}
+	// every contract directory gets a list (possibly empty: a _deploy without a gate)
+	for _, d := range p.ContractDirs {
+		if _, ok := gates[d]; !ok {
+			gates[d] = nil
+			gp = append(gp, d)
+		}
+	}
 	sort.Strings(gp)
 	for _, k := range gp {
 		fmt.Fprintf(&sb, "Definition p_%s_deploy_version_gates : list (string * Z) := %s.\n", k, coqList(gates[k], "; "))
